@@ -55,6 +55,8 @@ type Contract struct {
 	ExternPkg   string // contract of a function in another (unverified) package: trusted
 	Harness     bool
 	Inlines     []string
+	Outer       int      // unroll bound of outermost loops (0: same as every loop)
+	Cuts        bool     // loops iterating beyond the unroll bound are cut, not asserted absent (the bound restricts the inputs)
 	Abstracts   []string // spec functions used through their contract (result = uninterpreted function of the arguments) in this harness
 	Bounded     string // description of the input-domain bound of a bounded harness
 	UnrollTo    int
@@ -74,7 +76,7 @@ type Contract struct {
 }
 
 var clauseKW = map[string]bool{"func": true, "requires": true, "ensures": true, "modifies": true, "loop": true,
-	"trusted": true, "inline": true, "nilable": true, "noalloc": true, "alloc-bounded": true, "use": true, "decreases": true, "opaque": true, "harness": true, "inlines": true, "abstracts": true, "bounded": true, "extern": true, "import": true}
+	"trusted": true, "inline": true, "nilable": true, "noalloc": true, "alloc-bounded": true, "use": true, "decreases": true, "opaque": true, "harness": true, "inlines": true, "abstracts": true, "cuts": true, "outer": true, "bounded": true, "extern": true, "import": true}
 
 // parseContractFile extracts the contracts of one file.
 // contractImports collects `//@ import alias "path"` directives of a contract file.
@@ -191,6 +193,14 @@ func parseContractFile(path string, src []byte) ([]*Contract, string, error) {
 			for _, n := range strings.Split(text, ",") {
 				cur.Inlines = append(cur.Inlines, strings.TrimSpace(n))
 			}
+		case "outer":
+			n, err := strconv.Atoi(strings.TrimSpace(text))
+			if err != nil {
+				return nil, "", fmt.Errorf("%s:%d: outer <unroll>", path, itemLine[k])
+			}
+			cur.Outer = n
+		case "cuts":
+			cur.Cuts = true
 		case "abstracts":
 			for _, n := range strings.Split(text, ",") {
 				cur.Abstracts = append(cur.Abstracts, strings.TrimSpace(n))
